@@ -1,5 +1,7 @@
 import OrxPar.Props.C07
+import OrxPar.Props.AllSchedules
 open OrxPar
 #print axioms C07_collect_x
 #print axioms C07_collect_x_seq
 #print axioms C07_counts
+#print axioms C07_collect_x_all_schedules
